@@ -261,6 +261,7 @@ class MultiWcsProcessor(object):
 
     def _tile_parallel(self, pio, reproject_function, cli_progress, parallel, **kwargs):
         import multiprocessing as mp
+        from .par_util import join_workers, put_checking_workers
 
         # Start up the workers
 
@@ -281,7 +282,7 @@ class MultiWcsProcessor(object):
 
         with progress_bar(total=len(self._descs), show=cli_progress) as progress:
             for image, desc in zip(self._collection.images(), self._descs):
-                queue.put((image, desc, self._combined_wcs))
+                put_checking_workers(queue, (image, desc, self._combined_wcs), workers, done_event)
                 progress.update(1)
 
         # Wrap up
@@ -289,9 +290,7 @@ class MultiWcsProcessor(object):
         queue.close()
         queue.join_thread()
         done_event.set()
-
-        for w in workers:
-            w.join()
+        join_workers(workers)
 
 
 def _mp_tile_worker(queue, done_event, pio, reproject_function, kwargs):
